@@ -35,7 +35,9 @@ BITS_PRE = (1, 2, 4, 64, 128)
 def translate():
     from translator import registry
 
-    return registry.generate("Constants", "FlagOps")
+    # Constants, FlagOps; and the decisions of criteria.py regenerated expression by expression
+    # (translator/gen_kernels_criteria.py -> Generated/KernelsCriteria.lean, Properties/C04Kernels.lean)
+    return registry.generate("Constants", "FlagOps", "KernelsCriteria")
 
 
 # --------------------------------------------------------------------------------------------
@@ -99,6 +101,167 @@ def translator_cross_check(report, status):
     except Exception as exc:  # pylint: disable=broad-except
         status.problem("translator", f"cannot read the live flag sites: {type(exc).__name__}: {exc}")
     return ops_of_sites(data["sites"])
+
+
+# --------------------------------------------------------------------------------------------
+# the regenerated decisions of criteria.py (translator/gen_kernels_criteria.py): the translator's reading against
+# the REAL functions, cell by cell
+# --------------------------------------------------------------------------------------------
+def crit_geometries(rng, count):
+    """(rows, cols, col0, off, dmin, dmax, subpix, left mask style, right mask style): the three sign cases, an end at 0,
+    single disparities, offsets 0-2, ROI coordinates not starting at 0, images narrower than the interval and than the
+    window, intervals entirely beyond the image"""
+    out = []
+    for off in (0, 1, 2):
+        for col0 in (0, 3, 10):
+            for cols in (1, 2, 3, 5, 8):
+                for a, b in ((-3, -1), (-1, -1), (-9, -7), (1, 3), (2, 2), (7, 9), (-2, 2), (0, 0), (-2, 0), (0, 3), (-6, 6),
+                             (-4, -1), (1, 5)):
+                    out.append((rng.randrange(1, 4), cols, col0, off, a, b, rng.choice([1, 1, 2, 4])))
+    rng.shuffle(out)
+    out = out[: max(count, 300)]
+    while len(out) < count:
+        cols = rng.randrange(1, 11)
+        a = rng.randrange(-cols - 3, cols + 3)
+        out.append((rng.randrange(1, 5), cols, rng.choice([0, 2, 5, 117]), rng.randrange(0, 3), a, a + rng.randrange(0, 6),
+                    rng.choice([1, 2, 4])))
+    return out
+
+
+def kernels_cross_check(ctx, report, status):
+    """every run: (1) the generator's self-test (refused constructs, accepted expressions against numpy's own reading,
+    the slice reading against Python's slicing); (2) `pyexpr.evaluate` on the regenerated kernels against the REAL
+    `validity_mask` (with and without masks: validityMaskCol, allocLeftPx, rightMaskedPred + the fold of rightIterPx over
+    range(d_min, d_max + 1), reading the right cells at the gathered column), `mask_invalid_variable_disparity_range`
+    and `mask_border`, cell by cell"""
+    from fractions import Fraction  # noqa: F401
+
+    from translator import gen_kernels_criteria as gk
+    from translator import pyexpr
+    from translator.common import Unsupported
+
+    from ..impl import criteria_pipeline as cp
+
+    try:
+        for what in gk.selftest_problems():
+            status.problem("translator", f"gen_kernels_criteria self-test: {what}")
+        report.translator_checks += 1
+        ks, errors = gk.kernels()
+    except Unsupported:
+        return
+    except Exception as exc:  # pylint: disable=broad-except
+        status.problem("translator", f"gen_kernels_criteria crashed: {type(exc).__name__}: {exc}")
+        return
+    if errors:
+        return  # already reported by build_and_audit (the kernel is not translated)
+    from pandora import criteria
+
+    def ev(name, *args):
+        res, vals = pyexpr.evaluate(ks[name], *args)
+        if res != "ok":
+            raise RuntimeError(f"{name}{args}: {res}")
+        return vals
+
+    rng = ctx.rng
+    n_cells = 0
+    problems = 0
+
+    def problem(msg):
+        nonlocal problems
+        problems += 1
+        if problems <= 5:
+            status.problem("translator", msg)
+
+    geos = crit_geometries(rng, ctx.n(320, 1500))
+    signs = set()
+    for gi, (rows, cols, col0, off, a, b, subpix) in enumerate(geos):
+        signs.add("neg" if b < 0 else "pos" if a > 0 else "straddle")
+        masked = gi % 2 == 1
+        vv, nd, inv = rng.choice([[0, 1, [2]], [0, 1, [2, 3, 255]], [5, 7, [0, 1, 9]]])
+        ml = gen_mask(rng, rows, cols, rng.choice(["none", "sparse", "dense", "columns", "border"])) if masked else None
+        mr = gen_mask(rng, rows, cols, rng.choice(["sparse", "dense", "columns", "border", "all_invalid"])) if masked else None
+        im = np.zeros((rows, cols), dtype=np.float32)
+        left = cp.make_image(im, ml, col0=col0, valid_value=vv, nodata_value=nd, invalid_values=tuple(inv))
+        right = cp.make_image(im, mr, col0=col0, valid_value=vv, nodata_value=nd, invalid_values=tuple(inv))
+        cv = crit_cv(rows, cols, col0, off, a, b, subpix)
+        geo = {"rows": rows, "cols": cols, "col0": col0, "offset": off, "interval": [a, b], "subpix": subpix, "masks": masked}
+        try:
+            real = np.array(criteria.validity_mask(left, right, cv)["validity_mask"].data)
+        except Exception as exc:  # pylint: disable=broad-except
+            real = f"{type(exc).__name__}"
+        try:
+            want = np.zeros((rows, cols), dtype=np.int64)
+            dil_l = criteria.binary_dilation_msk(left, 2 * off + 1) if ml is not None else None
+            dil_r = criteria.binary_dilation_msk(right, 2 * off + 1) if mr is not None else None
+            n_it = ev("rangeLen", a, b)[0]
+            if n_it != len(range(a, b + 1)):
+                problem(f"translated len(range(d_min, d_max + 1)) = {n_it} for {geo}")
+            for c in range(cols):
+                flag0, bit1 = ev("validityMaskCol", col0 + c, col0, col0 + cols - 1, a, b, off)
+                for r in range(rows):
+                    f = flag0
+                    if ml is not None:
+                        f = ev("allocLeftPx", f, bool(dil_l[r, c]), int(left["msk"].data[r, c]), nd, vv)[0]
+                    if mr is not None:
+                        b27, ndr = 0, 0
+                        for dsp in range(a, b + 1):
+                            g = ev("rightIterPx", c, 0, cols - 1, dsp, off, a, b, bit1, 0, False, b27, ndr, f)[3]
+                            inside = -cols <= g < cols  # numpy's own index rule (a negative index wraps)
+                            rm = int(ev("rightMaskedPred", int(right["msk"].data[r, g]), nd, vv)[0]) if inside else 0
+                            dl = bool(dil_r[r, g]) if inside else False
+                            if ev("validIndex", c, 0, cols - 1, dsp, off)[0] and not inside:
+                                raise IndexError("the translated valid_index reads outside the image")
+                            b27, ndr, f, _ = ev("rightIterPx", c, 0, cols - 1, dsp, off, a, b, bit1, rm, dl, b27, ndr, f)
+                    want[r, c] = f
+                    n_cells += 1
+        except Exception as exc:  # pylint: disable=broad-except
+            want = f"{type(exc).__name__}"
+        if isinstance(real, str) or isinstance(want, str):
+            if not (isinstance(real, str) and isinstance(want, str)):
+                problem(f"validity_mask: real function -> {real if isinstance(real, str) else 'a mask'}, translated kernels -> "
+                        f"{want if isinstance(want, str) else 'a mask'} on {geo}")
+            continue
+        if real.shape != want.shape or (real != want).any():
+            d = first_diff(real, want)
+            problem(f"translated criteria kernels evaluate differently from the real validity_mask on {geo}: {d}")
+    report.count("kernels_geometries", len(geos))
+    for sgn in signs:
+        report.count("kernels_sign_" + sgn)
+    if len(signs) < 3:
+        status.problem("translator", "kernels cross-check: a sign case of the interval was not generated")
+    # mask_invalid_variable_disparity_range and mask_border
+    for k in range(ctx.n(40, 200)):
+        rows, cols = rng.randrange(1, 8), rng.randrange(1, 8)
+        off = rng.choice([0, 1, 1, 2, 3])
+        flags = np.array([[rng.choice([0, 2, 4, 6, 64, 66, 70, 128, 130, 134, 192, 255, 1, 3]) for _ in range(cols)] for _ in range(rows)],
+                         dtype=np.int64)
+        cv = crit_cv(rows, cols, 0, off, -1, 1, 1)
+        data = np.zeros((rows, cols, 3), dtype=np.float32)
+        allnan = np.array([[rng.random() < 0.4 for _ in range(cols)] for _ in range(rows)])
+        data[allnan] = np.nan
+        part = np.array([[rng.random() < 0.3 for _ in range(cols)] for _ in range(rows)]) & ~allnan
+        data[part, 0] = np.nan
+        cv["cost_volume"].data[:] = data
+        import xarray as xr
+
+        cv["validity_mask"] = xr.DataArray(flags.copy(), dims=["row", "col"])
+        criteria.mask_invalid_variable_disparity_range(cv)
+        got = np.array(cv["validity_mask"].data)
+        want = np.array([[ev("maskInvalidPx", int(flags[r, c]))[0] if allnan[r, c] else int(flags[r, c]) for c in range(cols)]
+                         for r in range(rows)]).reshape(rows, cols)
+        if (got != want).any():
+            problem(f"translated mask_invalid_variable_disparity_range differs from the real function: {first_diff(got, want)} "
+                    f"flags={flags.tolist()} all_nan={allnan.tolist()}")
+        cv["validity_mask"] = xr.DataArray(flags.copy(), dims=["row", "col"])
+        got = np.array(criteria.mask_border(cv).data)
+        want = np.array([[ev("maskBorderPx", r, c, rows, cols, off, int(flags[r, c]))[0] for c in range(cols)] for r in range(rows)]
+                        ).reshape(rows, cols)
+        if (got != want).any():
+            problem(f"translated mask_border differs from the real function: {first_diff(got, want)} rows={rows} cols={cols} "
+                    f"offset={off}")
+        n_cells += 2 * rows * cols
+    report.translator_checks += 2
+    report.count("kernels_cells_compared", n_cells)
 
 
 # --------------------------------------------------------------------------------------------
@@ -786,6 +949,7 @@ def run_case(ctx, report, ops, case, label):
 
 def run(ctx, report, status):
     ops = translator_cross_check(report, status)
+    kernels_cross_check(ctx, report, status)
     report.rule = (
         "A: random image pairs (1-11 x 2-14, windows 1/3/5, subpix 1/2/4, sad/ssd/census/zncc, intervals negative/positive/"
         "straddling/single/wider than the image/ending at 0, scalar or per-pixel grids, nodata+invalid masks sparse/dense/"
